@@ -81,6 +81,10 @@ func TestC11History(t *testing.T) {
 	rapid.Check(t, func(t *rapid.T) {
 		c := lab.GenCase(t, opts)
 		c.GateStatus = lab.Chance(t, "gatestatus", 75)
+		if lab.Chance(t, "statusfault", 30) {
+			// the store write of one of the first status updates fails
+			c.StatusFailAt = []int{lab.Uniform(t, "statusfaultat", 5)}
+		}
 		n := rapid.IntRange(2, 6).Draw(t, "ncalls")
 		step := 0
 		total := c.TotalRecords()
@@ -88,14 +92,17 @@ func TestC11History(t *testing.T) {
 			step += rapid.IntRange(0, total/2+4).Draw(t, "gap")
 			c.Client = append(c.Client, lab.ClientAction{Kind: kinds[lab.Uniform(t, "call", len(kinds))], AtStep: step})
 		}
-		if c.Engine == "v1" && c.Recovery.MaxRetries > 0 && st.IsKnown("C11/two-live-runs/v1/start-during-recovery") {
+		if c.Engine == "v1" && st.IsKnown("C11/two-live-runs/v1/start-during-recovery") {
 			// known finding: a user Start during the default engine's recovery back-off races the
-			// recovery's own restart; keep the search going behind it
+			// recovery's own restart; keep the search going behind it (the start is held back while
+			// the pipeline reports Recovering)
 			for i := range c.Client {
 				if c.Client[i].Kind == "start" {
-					c.Client[i].Kind = "wait"
-					st.Exclude("C11/two-live-runs/v1/start-during-recovery")
+					c.HoldStartInRecovery = true
 				}
+			}
+			if c.HoldStartInRecovery {
+				st.Exclude("C11/two-live-runs/v1/start-during-recovery")
 			}
 		}
 		res, m, h := runLab(t, "C11", c)
@@ -124,6 +131,12 @@ func TestC11History(t *testing.T) {
 		cls := append(labClasses(res), "part=history")
 		if c.GateStatus {
 			cls = append(cls, "status-writes-gated")
+		}
+		for _, e := range res.Events {
+			if e.Kind == lab.EvStatus && !e.OK {
+				cls = append(cls, "status-write-failed")
+				break
+			}
 		}
 		if inWindow {
 			cls = append(cls, "call-during-status-write")
